@@ -19,7 +19,8 @@ def runner_tasks(tier):
     return [{"module": "c08", "task": "identity_sweep", "kind": "eval", "clause": "identity through every route, all objects"},
             {"module": "c08", "task": "invalid_neighbours", "kind": "eval", "clause": "invalid neighbours raise or match"},
             {"module": "c10", "task": "formula_routing", "name": "pickle routing", "kind": "eval", "clause": "pickle / deepcopy identity in process, in another interpreter, and after the table variable was dropped"},
-            {"module": "stateful", "task": "C08", "name": "stateful", "kind": "bounded", "clause": "lookups after the table changed (isotope added after .isotopes was read; key leak between lookups)"}]
+            {"module": "stateful", "task": "C08", "name": "stateful", "kind": "bounded", "clause": "lookups after the table changed (isotope added after .isotopes was read; key leak between lookups)"},
+            {"module": "stateful", "task": "identity", "name": "atom identity", "kind": "bounded", "clause": "different atoms are unequal, distinct dictionary keys, kept apart by formulas"}]
 
 
 REPLAY = {"module": "c08", "task": "replay"}
